@@ -79,7 +79,7 @@ class PerAntennaPowerConstraint(BaseConstraint):
         """
         # Calculate current power per antenna (all dimensions except batch and antenna)
         spatial_dims = tuple(range(2, len(x.shape)))
-        antenna_power = torch.mean(torch.abs(x) ** 2, dim=spatial_dims, keepdim=True)
+        antenna_power = torch.mean(torch.abs(x) ** 2, dim=spatial_dims, keepdim=True) if spatial_dims else torch.abs(x) ** 2
 
         # Determine target power
         if self.power_budget is not None:
